@@ -1,5 +1,5 @@
 (* C15 property theorems: statements + `exact lemma` only. *)
-From CJ Require Import Common.Base C15.Model C15.Proofs C15.ModelName C15.ProofsName C15.ModelObf C15.ProofsObf C15.ModelAny C15.ProofsAny C15.ModelDns C15.ProofsDns C15.ModelExch C15.ProofsExch C15.ModelB32 C15.ProofsB32 C15.ModelPb C15.ProofsPb.
+From CJ Require Import Common.Base C15.Model C15.Proofs C15.ModelName C15.ProofsName C15.ModelObf C15.ProofsObf C15.ModelAny C15.ProofsAny C15.ModelDns C15.ProofsDns C15.ModelExch C15.ProofsExch C15.ModelB32 C15.ProofsB32 C15.ModelPb C15.ProofsPb C15.ModelDot C15.ProofsDot.
 
 Theorem C15_request_format_roundtrip :
   forall p e, add_request_format p = Some e -> remove_request_format e = Some p.
@@ -305,3 +305,19 @@ Theorem C15_anypb_nourl_bytes_roundtrip :
     station_unpack (client_pack_nourl m) (pb_type_of m) = Ok (Some m).
 Proof. exact anypb_nourl_bytes_roundtrip. Qed.
 Print Assumptions C15_anypb_nourl_bytes_roundtrip.
+
+(* ---- DNS-over-TLS framing of the requester (two-octet length prefix per message on one stream) ---- *)
+Theorem C15_dot_roundtrip :
+  forall msgs s, Forall (fun p => blen p <= 65535) msgs -> dot_send msgs = (s, false) -> dot_recv s = (msgs, true).
+Proof. exact dot_roundtrip. Qed.
+Print Assumptions C15_dot_roundtrip.
+
+Theorem C15_dot_frame_rejects : forall p, 65535 < blen p -> dot_frame p = None.
+Proof. exact dot_frame_rejects. Qed.
+Print Assumptions C15_dot_frame_rejects.
+
+Theorem C15_dot_recv_truncated :
+  forall msgs p k, Forall (fun q => blen q <= 65535) msgs -> blen p <= 65535 -> (k < 2 + length p)%nat -> (0 < k)%nat ->
+    dot_recv (flat_map dot_fr msgs ++ firstn k (dot_fr p)) = (msgs, false).
+Proof. exact dot_recv_truncated. Qed.
+Print Assumptions C15_dot_recv_truncated.
